@@ -132,9 +132,21 @@ func (c *verifBacChip) Transceive(cla int, ins int, p1 int, p2 int, data []byte,
 func verifH_C05_bac() {
 	n, mode := verifParam("n"), verifParam("mode")
 	mrzi := verifBytes(n)
-	chip := &verifBacChip{mode: mode, rndIc: verifBytes(8), kIc: verifBytes(16), arb: verifBytes(40)}
+	chip := &verifBacChip{mode: mode, rndIc: verifBytes(8), kIc: verifBytes(16)}
 	seed := verifHash("sha1", mrzi)[0:16]
 	chip.kEnc, chip.kMac = verifRefKDF3DES(seed, 1), verifRefKDF3DES(seed, 2)
+	// arbitrary 40-byte response, written as Enc(arbitrary plaintext) ‖ (MAC xor arbitrary delta):
+	// every 40-byte string has this form (the cipher is a bijection), and the counterexample
+	// replays with the real primitives
+	arbPlain, arbDelta := verifBytes(32), verifBytes(8)
+	{
+		e := verifCbc3(chip.kEnc, arbPlain, true)
+		m := verifRetailMac(chip.kMac, e)
+		for i := range m {
+			m[i] ^= arbDelta[i]
+		}
+		chip.arb = append(e, m...)
+	}
 	if verifParam("othermrz") == 1 {
 		// chip personalised with different keys (another MRZ): idealised as arbitrary other keys
 		chip.kEnc, chip.kMac = verifRefParity(verifBytes(16)), verifRefParity(verifBytes(16))
@@ -191,12 +203,16 @@ func verifH_C05_bac() {
 	kEnc, kMac := verifRefKDF3DES(seed, 1), verifRefKDF3DES(seed, 2)
 	kIcSeen := chip.kIc
 	if resp != nil {
-		m := verifRetailMac(kMac, resp[0:32])
-		verifAssertSeqEqual(resp[32:40], m, "accepted response carries the retail MAC under K.MAC(MRZ)")
-		pl := verifCbc3(kEnc, resp[0:32], false)
+		z := byte(0)
+		for _, x := range arbDelta {
+			z |= x
+		}
+		verifAssert(z == 0, "accepted response carries the retail MAC under K.MAC(MRZ)")
+		pl := arbPlain
 		verifAssertSeqEqual(pl[0:8], chip.rndIc, "accepted response echoes RND.IC")
 		verifAssertSeqEqual(pl[8:16], rndIfd, "accepted response echoes RND.IFD")
 		kIcSeen = pl[16:32]
+		_, _ = kEnc, kMac
 	} else {
 		verifAssert(verifParam("othermrz") == 0 || chip.cmdOK, "success against another MRZ only if the chip accepted")
 	}
